@@ -876,7 +876,7 @@ package parse
 // re-raises runtime errors) cannot panic for any type value.
 //@ func (itemType).String
 //@   props C13 C05
-//@   requires t != itemBool
+//@   requires[only-one-spelling-asked-for;C13] t != itemBool
 //@   note the precondition t != itemBool is not checked at the call sites for C13: (*tree).expect passes its `expected` argument, which is a constant other than itemBool at all 54 calls of expect (inspection), and fmt verbs format items, not item types
 //@   pure
 
